@@ -558,7 +558,8 @@ atomic step of the model); the read-only dispatch is one read-lock block; the bo
 reads the function map in its own read-lock block and only then takes the write lock – once, held over the
 whole mutation (`writeSectionSingle`); no callable is invoked while a guard is alive (`callOutsideLock`: a
 callable may call back into the registry); a poisoned lock is recovered (`poisonRecovered`: the Drop of a
-replaced callable runs under the write lock and may panic);
+replaced callable runs under the write lock and may panic); there is no timer, timeout, sleep or non-blocking lock
+attempt in registry.rs (`noTimers`: every lock acquisition blocks until granted, nothing is retried or given up);
 `serde_json::Map` is sorted (no `preserve_order`). -/
 theorem lock_region_facts :
     Gen.Registry.singleSection.all (·.2) = true ∧
@@ -566,7 +567,7 @@ theorem lock_region_facts :
       ["set_root", "register_value", "merge_root", "merge_at", "register_function_arc", "read_value"] ∧
     Gen.Registry.readDispatchSingleSection = true ∧ Gen.Registry.lookupThenWriteLock = true ∧
     Gen.Registry.writeSectionSingle = true ∧ Gen.Registry.callOutsideLock = true ∧
-    Gen.Registry.poisonRecovered = true ∧
+    Gen.Registry.poisonRecovered = true ∧ Gen.Registry.noTimers = true ∧
     Gen.Registry.mapSorted = true := by decide
 
 /-- Every API call that is one critical section is linearizable by construction: any schedule made
